@@ -53,7 +53,7 @@ def expected_rows(classes, par, seed):
             if w <= par["full3"]:
                 n = (nc * na * npg) ** w + (nc * na) ** w
             elif w <= par["canon3"]:
-                n = sampled(rg(w, 3) ** 2 * rg(w, 2), par["stride7"] if w >= 6 else 1, seed) + rg(w, 3) ** 2
+                n = sampled(rg(w, 3) ** 2 * rg(w, 2), par["stride7"] if w >= 7 else par["stride6"] if w == 6 else 1, seed) + rg(w, 3) ** 2
             else:
                 n = 0
         else:
@@ -110,7 +110,7 @@ def run():
               "over 2 chars x 2 attrs (2x2 cells with RunBase 2; rows of 4 with RunBase 3; thorough: rows of 5) and checks that the decoder of XBin.tla accepts it and reads the picture "
               "back (EncoderSound), rejects every stream with a run crossing a row end (CrossingRejected), is total on junk; the transcribed greedy compressor is checked on all rows "
               "<= 5 (6) over 2x2x2. R2: Gen_XBin exports the small-scope classes of the property (3 chars x 3 attrs x 2 pages, w <= 7; 2x2, w <= 10); the driver enumerates them "
-              "(all rows up to width full3/full2, beyond that one representative per orbit of character/attribute/page renaming, widths 6-7 every stride7-th representative in the quick tier) "
+              "(all rows up to width full3/full2, beyond that one representative per orbit of character/attribute/page renaming, width 6 / 7 every stride6-th / stride7-th representative, see enumeration_params) "
               "as rows of 200-row buffers, plus seeded random buffers 1..200 x 1..30 (small alphabets with long runs, full byte range, widths 63/64/65/127/128/129, blink/ice, 1-2 fonts, "
               "with/without SAUCE). R3: for every buffer Trace_XBin decodes the compressed bytes with the decoder written from x_bin.htm and judges ValidStream, "
               "CompressedDecodesToCells (incl. font-page bit), RawDecodesToCells, HeaderOk, EngineDecodeEq; row counts per class are compared with the class sizes. "
